@@ -44,7 +44,9 @@ func (s *Session) SendMessage(ctx context.Context, r xml.TokenReader) (xmlstream
 		return nil, fmt.Errorf("expected start element to be a message")
 	}
 
-	// If there's no ID, add one.
+	// If there's no ID, add one (to a copy: the token's attributes are the
+	// caller's).
+	start = start.Copy()
 	idx, _, id, typ := getIDTyp(start.Attr)
 	if idx == -1 {
 		idx = len(start.Attr)
